@@ -47,6 +47,38 @@ CLAIMS = {
         "text": "Key-count and column mechanisms of the mania converter: target_columns is the value of an active key mod or in {4,5,6,7} for every cs/od on the 0.1 grid, every legacy mods word and maps of 0/5(/8) objects of symbolic kind; column(column_to_pos(c,K),K) == c for K <= 10 (18); ManiaObject::column(x,K) < K and get_column (incl. the 8K special lane) for every f32 x; ContainedColumns bit set. Object-free conversions: C07 harnesses.",
         "note": TB + "The conversions on maps with objects (slider -> drum-roll splice, pattern generation) have float-driven trip counts and slider geometry and are outside.",
     },
+    "C03": {
+        "text": "Gradual performance, builder level: the {Osu,Mania}GradualPerformance literal is built around an S1 difficulty state (N <= 2 quick, 3 thorough), the mode's one-shot calculate() is a recording stub, and one next / nth(n) (any n) / last call must hand over exactly: the attributes of the processed prefix, the gradual Difficulty with passed_objects(idx), the given score state (all fields, any u32), no accuracy/priority leak; it processes min(n+1, remaining) objects and returns None exactly when nothing remains. Native replay compares the real gradual result with the real one-shot Performance on the prefix.",
+        "note": TB + "Taiko and catch gradual performance (same chain) are not encoded; calculators are assumed deterministic in their builder; inner bookkeeping is C02/C15.",
+    },
+    "C04": {
+        "text": "Attribute reuse, builder level: with the mode's difficulty entry replaced by a ghost-attribute stub, a map-backed builder of each of the four modes calls it exactly once with its own Difficulty, then holds the ghost attributes, generates the same state as, and equals field by field, the attribute-backed builder with the same setters (every subset of provided values, passed_objects, lazer, legacy mods, priority); every IntoPerformance / IntoModePerformance conversion yields that same builder; osu!'s zero-hit calculate() embeds the given difficulty attributes.",
+        "note": TB + "The stub defines the oracle, so these harnesses cannot be replayed natively (stated per harness). Numeric result equality beyond builder equality is outside.",
+    },
+    "C06": {
+        "text": "Post-parse well-formedness mechanisms of the decoder: difficulty-section clamps for every non-NaN value and mode; tandem sort of objects and sounds (sorted by total_cmp, stable, each sound stays with its object) for 2 real HitObjects / 4 light keys with fully symbolic times (3 / 5 thorough); sorted insertion of timing, difficulty and effect points as one inductive step from an arbitrary strictly sorted vector (L = 2, 3 thorough) and an arbitrary new point (strict order, uniqueness, replacement, constructor clamps).",
+        "note": TB + "Byte-level totality of the parser, error containment and bytes/str/path agreement are outside (text scanning and float parsing are out of reach); the parser's NaN rejection is an assumed precondition.",
+    },
+    "C08": {
+        "text": "Representation independence at the accessor level (all calculators read mods only through GameMods' accessors): every accessor for every u32 mods word against the osu! API bit table for u32 / GameModsLegacy / from_bits_retain; explicit clock rate overrides; single-mod lazer sets with symbolic payload: DoubleTime(r) == clock_rate(r), DifficultyAdjustOsu attribute values, HardRock default == legacy bit (thorough: HalfTime, Nightcore table).",
+        "note": TB + "Multi-mod lazer / intermode sets (B-trees with several elements), borrowed intermode sets and end-to-end result equality are outside.",
+    },
+    "C09": {
+        "text": "The guards: *ScoreState::accuracy() of all four modes lies in [0,1] and is never NaN for every state with bounded fields (2^16; mania 2^8; osu slider origins 2^5 in the thorough tier); an osu! play with zero hits is worth zero pp for every shape and legacy mods word; the attribute builder's outputs are finite over the documented input range (0.1 grid, rate table); difficulty_value / count_top_weighted_strains on empty and all-zero lists.",
+        "note": TB + "Finiteness / non-negativity of stars and pp on non-degenerate input depends on powf/ln/exp/erf, which have no exact solver semantics: outside.",
+    },
+    "C10": {
+        "text": "The feature-gated StrainsVec: the same harness source is verified under the default features and under --features raw_strains against one executable model for every 3 pushes (4 thorough) of symbolic strains (>= 0 or -0.0, non-NaN): len, iter (with its length protocol), retain/sort/sorted_non_zero_iter_mut/transmute_into_vec, into_vec (zero pattern enumerated), sum (thorough). Both builds equal to the model implies equal to each other.",
+        "note": TB + "Whole-calculation equality across builds, negative/NaN pushes (the builds differ there by design) and the `sync` wrappers are outside.",
+    },
+    "C16": {
+        "text": "Structural part: the peaks a skill exports are its closed sections plus the open section, whatever its value (provided trait method, symbolic peaks incl. exactly 0) — so all skills report the same number of sections; difficulty_value(peaks, w) for two peaks from a table equals hi + lo*w bit-exactly with zeros dropped; zero runs are re-expanded in place by into_vec (C10 harness).",
+        "note": TB + "The section loop of process(), osu aim/speed re-aggregation, real strain values and the final sqrt*multiplier step are outside.",
+    },
+    "C17": {
+        "text": "Attribute builder on grids (values k/10, clock rates from an 8-entry table, legacy EZ/HR/DT/HT subsets, all modes and convert flags): a value given with_mods = true is reported back (each attribute with its own flag, so mixed flags are covered); windows do not grow with OD/AR; windows scale inversely with the clock rate exactly for attributes given without mods and not at all for those given with mods; EZ <= NM <= HR; outputs finite on [-20, 20]; thorough: DT/HT as mod == explicit clock rate through Difficulty.",
+        "note": TB + "Values between grid points and rates outside the table are outside; build() vs hit_windows() bit-equality is not asserted (same code; the miter did not close).",
+    },
     "C18": {
         "text": "Bounded model checking of the real setter code: for each of the four Performance variants and each mode-specific builder, two setters chosen symbolically with fully symbolic arguments (all u32, all f64 bit patterns for clock rate, all non-NaN f32, bool) are shown equivalent to difficulty(Difficulty::new().<same setters>), independent setters commute, documented-irrelevant setters are no-ops, stored values are inside the documented clamps, and Difficulty -> inspect -> into_difficulty is the identity for every combination of set/unset fields. The solver decides all argument values at once; unit tests only sample them.",
         "note": "Trusted: Kani/CBMC/CaDiCaL, dev-profile semantics. Builders are attribute-backed; comparison is field-by-field over every builder field except the map/attributes slot. Bound: sequences of two setters; legacy-bit mods only. Outside: that a stored-but-ignored value leaves float results untouched.",
